@@ -24,9 +24,12 @@ local function mkattr(type, value, untyped)
   return a
 end
 
+-- integers (decimal) become bn values as the analyzer makes them; anything with a fraction,
+-- exponent, hex float or inf/nan becomes a Lua float
 local function num(s)
-  if s:find('[%.eEn]') and not s:find('^%-?0x') then return tonumber(s) end
-  return bn.from(s) or bn.parse(s)
+  if s == 'inf' then return math.huge elseif s == '-inf' then return -math.huge elseif s == 'nan' then return 0.0/0.0 end
+  if s:find('^%-?%d+$') then return bn.from(s) or bn.parse(s) end
+  return tonumber(s)
 end
 
 local function show(v)
